@@ -26,6 +26,61 @@ theorem pushLoop_fixed_terminates (len : Nat) : ∀ (f n : Nat), 0x7fffff ≤ n 
       · simp [ht, hl]
     · simp [ht]
 
+/-- a text shorter than 2^22 - 1 bytes: the repaired loop ends on an attempt that FITS -/
+theorem pushLoop_fixed_fits (len : Nat) (hlen : len < 2 ^ 22 - 1) : ∀ (f n : Nat), 0x7fffff ≤ n * 2 ^ f →
+    ∃ k, pushLoop true len (f + 1) n = some k ∧ len < k - 1
+  | 0, n, h => by
+    unfold pushLoop
+    by_cases ht : len ≥ n - 1
+    · exfalso; simp at h; omega
+    · exact ⟨n, by simp [ht], by omega⟩
+  | f + 1, n, h => by
+    unfold pushLoop
+    by_cases ht : len ≥ n - 1
+    · have hl : n * 2 < 0x7fffff := by omega
+      simp only [ht, hl, ↓reduceIte]
+      exact pushLoop_fixed_fits len hlen f (n * 2)
+        (by rw [Nat.pow_succ] at h; rw [Nat.mul_assoc, Nat.mul_comm 2]; exact h)
+    · exact ⟨n, by simp [ht], by omega⟩
+
+/-- a text of 2^22 - 1 bytes or more: every attempt fails, the ceiling ends the loop with the block at 2^22 -/
+theorem pushLoop_fixed_cut (len : Nat) (hlen : len ≥ 2 ^ 22 - 1) : ∀ (j e n : Nat), n * 2 ^ j = 2 ^ 22 →
+    pushLoop true len (j + 1 + e) n = some (2 ^ 22)
+  | 0, e, n, h => by
+    have hn : n = 2 ^ 22 := by simpa using h
+    subst hn
+    rw [show 0 + 1 + e = e + 1 by omega]
+    unfold pushLoop
+    have ht : len ≥ 2 ^ 22 - 1 := hlen
+    simp [ht]
+  | j + 1, e, n, h => by
+    have h2 : n * 2 * 2 ^ j = 2 ^ 22 := by rw [Nat.pow_succ] at h; rw [Nat.mul_assoc, Nat.mul_comm 2]; exact h
+    have hpos : 0 < 2 ^ j := Nat.pow_pos (by decide)
+    have hle : n * 2 ≤ 2 ^ 22 := by rw [← h2]; exact Nat.le_mul_of_pos_right _ hpos
+    rw [show j + 1 + 1 + e = (j + 1 + e) + 1 by omega]
+    unfold pushLoop
+    have ht : len ≥ n - 1 := by omega
+    have hl : n * 2 < 0x7fffff := by omega
+    simp only [ht, hl, ↓reduceIte]
+    exact pushLoop_fixed_cut len hlen j e (n * 2) h2
+
+/-- `list_push_hostlist`, D2 repaired: the entry is the whole ranged text of the exclusion file iff that text
+    is shorter than 2^22 - 1 bytes; from there on the ceiling `0x7fffff` cuts it (F02-XFILE-4MIB) -/
+theorem pushHostlist_whole (cfg : Cfg) (hfix : cfg.fixPushLoop = true) (hl : EL)
+    (h : (rangedText hl.ranges).length < 2 ^ 22 - 1) : pushHostlist cfg hl = .ok (rangedText hl.ranges) := by
+  obtain ⟨k, hk, hfit⟩ := pushLoop_fixed_fits _ h 12 4096 (by decide)
+  unfold pushHostlist
+  simp only [hfix, PUSH_FUEL, hk]
+  rw [if_neg (by omega)]
+
+theorem pushHostlist_cut (cfg : Cfg) (hfix : cfg.fixPushLoop = true) (hl : EL)
+    (h : (rangedText hl.ranges).length ≥ 2 ^ 22 - 1) :
+    pushHostlist cfg hl = .error (.ub "exclusion text cut at 4 MiB") := by
+  have hk := pushLoop_fixed_cut _ h 10 2 4096 (by decide)
+  unfold pushHostlist
+  simp only [hfix, PUSH_FUEL, hk]
+  rw [if_pos (by omega)]
+
 theorem pushLoop_unchanged_diverges (len : Nat) (h : len ≥ 4095) : ∀ fuel, pushLoop false len fuel 4096 = none
   | 0 => rfl
   | f + 1 => by
